@@ -119,6 +119,9 @@ verified before anything of it is used; the key-exchange validity and availabili
 theorem code_facts :
     Fdo.Facts.allBefore "verifyVoucher" ["sendNextOVEntry", "VerifyHeader", "VerifyManufacturerKey", "VerifyEntries", "Equal"] "Verify" = true ∧
     Fdo.Facts.before "sendHelloDevice" "Equal" "Verify" = true ∧
-    Fdo.Facts.allBefore "verifyOwner" ["sendHelloDevice", "Valid", "Available"] "verifyVoucher" = true := by decide +kernel
+    Fdo.Facts.allBefore "verifyOwner" ["sendHelloDevice", "Valid", "Available"] "verifyVoucher" = true ∧
+    -- the device's TO2: the owner is verified before the device proves itself, before service info is exchanged
+    Fdo.Facts.before "TO2" "verifyOwner" "proveDevice" = true ∧
+    Fdo.Facts.allBefore "TO2" ["verifyOwner", "proveDevice", "sendReadyServiceInfo"] "exchangeServiceInfo" = true := by decide +kernel
 
 end Fdo.Props.C01
